@@ -73,17 +73,23 @@ def run(tier):
     seen = set()
     inputs = [s for s in inputs if oracle.reaction_facts(s)["parses"] and not (s in seen or seen.add(s))]
     # phase 1: every reaction alone (its own rebalance call, one worker)
+    # every solo call gets a new Balancer object; a second process makes the same solo calls in the opposite order,
+    # so that anything kept between calls (in the object, the class, the module) shows as a difference
     solo_plan = {"runs": [{"name": "solo", "inputs": [s], "form": "list", "batch_size": None, "n_jobs": 1,
-                           "threshold": 0} for s in inputs]}
+                           "threshold": 0, "fresh": True} for s in inputs]}
     p1 = os.path.join(wd, "solo_plan.json")
     with open(p1, "w") as f:
         json.dump(solo_plan, f)
+    p1r = os.path.join(wd, "solo_rev_plan.json")
+    with open(p1r, "w") as f:
+        json.dump({"runs": [dict(r_, fresh=False) for r_ in reversed(solo_plan["runs"])]}, f)
+    l1r = os.path.join(wd, "solo_rev.ndjson")
     # phase 2: the same multiset in several layouts
     p2 = os.path.join(wd, "layout_plan.json")
     with open(p2, "w") as f:
         json.dump({"runs": _layouts(inputs, rng, tier)}, f)
     l1, l2 = os.path.join(wd, "solo.ndjson"), os.path.join(wd, "layouts.ndjson")
-    common.run_drivers_parallel([("drv_pipeline", [p1, l1], None)])
+    common.run_drivers_parallel([("drv_pipeline", [p1, l1], None), ("drv_pipeline", [p1r, l1r], None)])
     common.run_drivers_parallel([("drv_pipeline", [p2, l2], None)], timeout=6 * 3600)
     events = []
     nid = 0
@@ -101,6 +107,19 @@ def run(tier):
             cur = []
     # exclude reactions whose solo search touched a wall-clock budget (not reproducible)
     slow = {k for k, e in solo_rows.items() if "timeout" in e["issue"].lower()}
+    # the same solo calls made in the opposite order on ONE object in another process
+    rev_rows = {e["argstr"]: e for e in common.read_ndjson(l1r) if e["ev"] == "row"}
+    slow |= {k for k, e in rev_rows.items() if "timeout" in e["issue"].lower()}
+    for k, e in solo_rows.items():
+        r2 = rev_rows.get(k)
+        if k in slow or r2 is None:
+            continue
+        a, b2 = _row(e), _row(r2)
+        diff = [f for f in a if a[f] != b2[f]]
+        if diff:
+            rep.fail("SoloResultIndependentOfEarlierCalls", "input=%s differs in %s" % (k, ",".join(diff)),
+                     detail={"fresh_object_forward_order": a, "one_object_reverse_order": b2}, group="solo-history",
+                     replay={"inputs": inputs})
     cur = []
     runs_meta = []
     for e in common.read_ndjson(l2):
